@@ -1158,7 +1158,7 @@ func vInitStoreScenarios() {
 func init() {
 	vRegister(&vCheck{
 		ID: "C11", Level: "model_checking", Engine: "schedmc",
-		Rule:        "Stateless exploration (DFS over choice prefixes, iterative preemption bounding 0,1,2[,3]; select choice, HNSW level and ticks as bounded environment deviations) of 3-thread scenarios on ONE shared instance per kind (flat, hnsw, ivf, pq, ivfpq, bm25, metadata, hybrid): S1 Add||Search||Remove, S2 Remove||Remove||Search, S3 Add||Flush||Search with a soft-deleted document, S4 WriteTo||Add||Remove, S5 restricted searches sharing pooled filters/heaps, S6 auto-id generation across instances; store: T1 Add||[Add;Add] with a one-document memtable, T2 Add||background flush||Search, T3 Search||compaction||Evict, T4 Add||Close, T5 Flush||background flush||Search. Oracle on EVERY complete interleaving: no panic, no deadlock, no spurious failure (only errors a sequential order could produce), visibility (a search returns every document whose add returned before it was called and whose removal had not been called before it returned; none whose removal returned before it was called or that was never added), auto ids distinct. Every 64th execution is replayed from its choice list and must reproduce trace and outcome. Data races: the same scenario bodies run free under the Go race detector (separate pass, reported in evidence). Non-trivial = distinct executions with at least one preemption or environment deviation.",
+		Rule:        "Stateless exploration (DFS over choice prefixes, iterative preemption bounding 0,1,2[,3]; select choice, HNSW level and ticks as bounded environment deviations) of 3-thread scenarios on ONE shared instance per kind (flat, hnsw, ivf, pq, ivfpq, bm25, metadata, hybrid): S1 Add||Search||Remove, S2 Remove||Remove||Search, S3 Add||Flush||Search with a soft-deleted document, S4 WriteTo||Add||Remove, S5 restricted searches sharing pooled filters/heaps, S6 auto-id generation across instances; store: T1 Add||[Add;Add] with a one-document memtable, T2 Add||background flush||Search, T3 Search||compaction||Evict, T4 Add||Close, T5 Flush||background flush||Search. Oracle on EVERY complete interleaving: no panic, no deadlock, no spurious failure (only errors a sequential order could produce), visibility (a search returns every document whose add returned before it was called and whose removal had not been called before it returned; none whose removal returned before it was called or that was never added), auto ids distinct. Every 64th execution is replayed from its choice list and must reproduce trace and outcome. Data races: the same scenario bodies run free under the Go race detector (separate pass, reported in evidence). Non-trivial = distinct executions with at least one preemption or environment deviation. Further scenarios (see DESIGN A.2): S12-S18 (refused adds, Remove||Flush||Search, same-id adds, Flush||Flush||[Remove;Add], re-add while searching, auto ids next to explicit ids), T6 (re-add of a flushed id || compaction), D1/D2/O6.",
 		Assumptions: []string{"scheduling points at lock acquisition, atomics, channel operations, WaitGroup.Wait, pool Get, file-system calls; atomics sequentially consistent", "2-3 threads x 1-2 operations, preemption bound 2 (quick) / 3 (thorough)", "the data-race clause is decided by the free-running race-detector pass over the same bodies, not by enumeration"},
 		Shards: func(tier string) []vShard {
 			sh := vSchedShards("C11", tier)
